@@ -96,6 +96,8 @@ def run_job(job):
                 tried.append(inputs)
             if not reproduced:
                 res["nonrepro"].append(dict(label=c["label"], tried=tried[:2]))
+            else:
+                break
         # ---- differential validation of explored paths: symbolic outcome == real-stack outcome
         for p in eng.path_log:
             inputs = eng.concretize(p["pc"], None, p["cf_apps"], pretty=False)
